@@ -372,7 +372,14 @@ func (c11) Eval(t *testing.T, c *Case, dec func(int) *Decider) *Outcome {
 			spec = "no.such.point#1:INT" // no signal: the natural end of the program through the real cli/app.go
 			o.Stats.probe("real-natural-end-run")
 		}
-		dir, code, stderr, err := realSignalRun(bin, sc, p, spec)
+		// in 30% of these runs the first statements of the program come from a preload
+		// file (./csvqrc), which csvq executes before the query given on the command line
+		preload := 0
+		if r.Bool(0.3) {
+			preload = r.Range(1, 3)
+			o.Stats.probe("real-preload-run")
+		}
+		dir, code, stderr, err := realSignalRun(bin, sc, p, spec, preload)
 		o.RealProc++
 		if err != nil {
 			o.viol(prop, "termination", "real-process:"+errClass(err.Error()), err.Error())
@@ -500,7 +507,7 @@ func outputsShort(res *RunResult) []string {
 
 // realSignalRun runs the program of process p alone in the real binary with a
 // VERIF_PLAN that makes it signal itself at a hook point.
-func realSignalRun(bin string, sc *Scenario, p int, spec string) (DirState, int, string, error) {
+func realSignalRun(bin string, sc *Scenario, p int, spec string, preload int) (DirState, int, string, error) {
 	setupBase()
 	dir, err := os.MkdirTemp(BaseDir, "real11-")
 	if err != nil {
@@ -511,9 +518,25 @@ func realSignalRun(bin string, sc *Scenario, p int, spec string) (DirState, int,
 		return nil, 0, "", err
 	}
 	plan, _ := json.Marshal(map[string]string{"signal": spec})
-	cmd := exec.Command(bin, "--repository", dir, "--quiet", "--cpu", "1", "--format", "CSV", "--wait-timeout", "1", sc.Procs[p].Program)
+	program := sc.Procs[p].Program
+	cwd := filepath.Join(BaseDir, "cwd")
+	if preload > 0 {
+		// the preload file is looked up in the working directory, and its statements run
+		// before --repository is applied: the repository is the working directory here
+		lines := strings.Split(program, "\n")
+		k := min(preload, len(lines))
+		if err := os.WriteFile(filepath.Join(dir, "csvqrc"), []byte(strings.Join(lines[:k], "\n")+"\n"), 0o644); err != nil {
+			return nil, 0, "", err
+		}
+		program = strings.Join(lines[k:], "\n")
+		if strings.TrimSpace(program) == "" {
+			program = "VAR @nothing_left := 1;"
+		}
+		cwd = dir
+	}
+	cmd := exec.Command(bin, "--repository", dir, "--quiet", "--cpu", "1", "--format", "CSV", "--wait-timeout", "1", program)
 	cmd.Env = append(os.Environ(), "VERIF_PLAN="+string(plan))
-	cmd.Dir = filepath.Join(BaseDir, "cwd")
+	cmd.Dir = cwd
 	var stderr bytes.Buffer
 	cmd.Stderr = &stderr
 	done := make(chan error, 1)
@@ -532,7 +555,9 @@ func realSignalRun(bin string, sc *Scenario, p int, spec string) (DirState, int,
 		} else if err != nil {
 			return nil, 0, stderr.String(), err
 		}
-		return SnapshotDir(dir), code, stderr.String(), nil
+		st := SnapshotDir(dir)
+		delete(st, "csvqrc")
+		return st, code, stderr.String(), nil
 	case <-time.After(15 * time.Second):
 		_ = cmd.Process.Kill()
 		return nil, 0, stderr.String(), fmt.Errorf("real process did not terminate within 15 s after plan %s", spec)
